@@ -447,6 +447,21 @@ func (w *tcpDnsResponseWriter) Hijack() {}
 // Returns the message, framed byte length, or error. Does not consume data on
 // parse failure.
 func readDnsMsgFromBufio(reader *bufio.Reader, timeout time.Duration, conn net.Conn) (*dnsmessage.Msg, int, error) {
+	msg, frameLen, err := peekDnsMsgFromBufio(reader, timeout, conn)
+	if err != nil {
+		return nil, 0, err
+	}
+	// Consume the data by discarding it
+	if _, err = reader.Discard(frameLen); err != nil {
+		return nil, 0, err
+	}
+	return msg, frameLen, nil
+}
+
+// peekDnsMsgFromBufio parses the DNS message at the head of a buffered reader
+// like readDnsMsgFromBufio, but leaves it in the reader: the caller discards
+// frameLen bytes once it has decided to take the message.
+func peekDnsMsgFromBufio(reader *bufio.Reader, timeout time.Duration, conn net.Conn) (*dnsmessage.Msg, int, error) {
 	// Set read deadline
 	if timeout > 0 {
 		if err := conn.SetReadDeadline(time.Now().Add(timeout)); err != nil {
@@ -479,12 +494,6 @@ func readDnsMsgFromBufio(reader *bufio.Reader, timeout time.Duration, conn net.C
 	// Parse DNS message before consuming
 	var msg dnsmessage.Msg
 	if err := msg.Unpack(data); err != nil {
-		return nil, 0, err
-	}
-
-	// Consume the data by discarding it
-	_, err = reader.Discard(int(2 + length))
-	if err != nil {
 		return nil, 0, err
 	}
 
@@ -616,7 +625,7 @@ func (c *ControlPlane) handleTCPDnsFastPath(ctx context.Context, lConn net.Conn,
 		}
 	}()
 	// Try to read the first DNS query to verify this is actually DNS traffic
-	msg, frameLen, err := readDnsMsgFromBufio(bufReader, TCPDNSFirstReadTimeout, lConn)
+	msg, frameLen, err := peekDnsMsgFromBufio(bufReader, TCPDNSFirstReadTimeout, lConn)
 	if err != nil {
 		// Not a valid DNS query - not DNS traffic, fall through to normal TCP handling
 		// The bufio.Reader has buffered but not consumed the data, so the caller
@@ -626,7 +635,11 @@ func (c *ControlPlane) handleTCPDnsFastPath(ctx context.Context, lConn net.Conn,
 
 	// Verify it's a query, not a response
 	if msg.Response {
-		// Received a response instead of a query - not DNS client traffic
+		// Received a response instead of a query - not DNS client traffic.
+		// The frame is still in the reader, so the relay forwards it too.
+		return false, nil
+	}
+	if _, err = bufReader.Discard(frameLen); err != nil {
 		return false, nil
 	}
 	// This is DNS-over-TCP traffic - handle all queries on this connection
